@@ -156,6 +156,11 @@ fn gen_single(r: &mut Rng) -> SingleB {
 }
 
 pub fn gen_slot(r: &mut Rng, mode: Mode) -> SlotCfg {
+    gen_slot_ex(r, mode, false)
+}
+
+/// `force_long`: an axis of 16-40 knots (2-D: 16-22 per axis), whatever the mode
+pub fn gen_slot_ex(r: &mut Rng, mode: Mode, force_long: bool) -> SlotCfg {
     loop {
         let kind = match mode {
             Mode::C18 => *r.pick(&[Kind::Probe1, Kind::Probe1, Kind::Probe2]),
@@ -186,7 +191,7 @@ pub fn gen_slot(r: &mut Rng, mode: Mode) -> SlotCfg {
         let max_pts = if small { 5 } else if two { 5 } else { 9 };
         // rarely a long axis (tables, buckets and pools inside the crate may have size thresholds);
         // long 2-D grids are square, so that default axes coincide
-        let long = !small && mode == Mode::C17 && r.chance(1, 10);
+        let long = force_long || (!small && mode == Mode::C17 && r.chance(1, 10));
         let nx = if long { r.range(16, if two { 22 } else { 40 }) } else { r.range(min_pts, max_pts.max(min_pts)) };
         let ny = if !two { 0 } else if long { nx } else { r.range(min_pts, max_pts.max(min_pts)) };
         // trailing axes
@@ -510,9 +515,16 @@ fn gen_call(r: &mut Rng, sc: &SlotCtx, faults: &Faults, mode: Mode) -> Call {
             let ty = [QTy::Q0, QTy::Q1, QTy::Q2, QTy::Q3, QTy::QDyn][r.weighted(&[1, 5, 2, 1, 3])];
             let max_elems = if mode == Mode::C17Miri { 6 } else { 12 };
             // rarely a long rank-1 batch: counters and thresholds inside the crate need volume
-            let big = mode == Mode::C17 && r.chance(1, 40);
-            let ty = if big { *r.pick(&[QTy::Q1, QTy::Q1, QTy::QDyn]) } else { ty };
-            let shape = if big { vec![r.range(40, 400)] } else { gen_qshape(r, ty, max_elems) };
+            let big = (mode == Mode::C17 && r.chance(1, 40)) || (mode == Mode::C18 && r.chance(1, 25));
+            let ty = if big { *r.pick(&[QTy::Q1, QTy::Q1, QTy::QDyn, QTy::Q2]) } else { ty };
+            let shape = if !big {
+                gen_qshape(r, ty, max_elems)
+            } else if ty == QTy::Q2 {
+                // size thresholds inside the crate (chunking, parallel paths) also apply to n-d batches
+                vec![r.range(5, 40), r.range(3, 12)]
+            } else {
+                vec![r.range(40, 400)]
+            };
             let n: usize = shape.iter().product();
             let (xs, ys): (Vec<Fb>, Vec<Fb>) = if mode == Mode::C18 {
                 // pairwise distinct query elements: every written value is attributable
@@ -524,6 +536,13 @@ fn gen_call(r: &mut Rng, sc: &SlotCtx, faults: &Faults, mode: Mode) -> Call {
                 let allow_dup = r.chance(1, 3);
                 while xs.len() < n {
                     tries += 1;
+                    if big {
+                        // many elements: an increasing sequence (pairwise distinct by construction), shuffled below
+                        let k = xs.len() as f64;
+                        xs.push(sc.lo_hi_x.0 + (sc.lo_hi_x.1 - sc.lo_hi_x.0) * ((k + r.unit() * 0.9) / n as f64 * 1.2 - 0.1));
+                        ys.push(if sc.two { sc.lo_hi_y.0 + (sc.lo_hi_y.1 - sc.lo_hi_y.0) * r.unit() } else { 0.0 });
+                        continue;
+                    }
                     if allow_dup && !xs.is_empty() && r.chance(1, 2) {
                         let j = if r.chance(2, 3) { xs.len() - 1 } else { r.below(xs.len()) };
                         let (x, y) = (xs[j], ys[j]);
@@ -838,6 +857,57 @@ fn gen_hammer(r: &mut Rng, want: Option<Kind>) -> Generated {
     let threads = (0..n_threads)
         .map(|_| ThreadSpec { ops: (0..r.range(10, 18)).map(|_| pool[r.below(pool.len())].clone()).collect(), crash_on_fault: false })
         .collect();
+    Generated { spec: RunSpec { build_on_thread: vec![], slots: vec![cfg], threads, sched: Sched::RoundRobin { quantum: 1 }, stall: None, ballast: 0 }, faults }
+}
+
+/// Engine C "wide hammer": one interpolator with a LONG axis, one hot key inside each of many
+/// segments, 2-4 threads. Caches with a capacity, an associativity or a slot function (segment
+/// modulo 8, say) only collide when many different segments are in play at once.
+pub fn gen_hammer_wide(seed: u64, want: Option<Kind>) -> Generated {
+    let mut r = Rng::new(seed);
+    let r = &mut r;
+    let faults = Faults { oob: false, badbuf: false, strat_err: false, strat_panic: false, crash: false, stall: false, cow: false, badidx: false, mismatch: false, sibling: false, reenter: false, elem_panic: false };
+    let cfg = loop {
+        let c = gen_slot_ex(r, Mode::C17Miri, true);
+        let lanes: usize = c.trailing().iter().product();
+        if c.elem == Elem::F64 && lanes >= 1 && (want.is_none() || Some(c.kind) == want) {
+            break c;
+        }
+    };
+    let two = cfg.kind.is_2d();
+    let ax = cfg.axis_x();
+    let ay = if two { cfg.axis_y() } else { vec![0.0, 1.0] };
+    let seg_keys = |r: &mut Rng, a: &[f64]| -> Vec<f64> {
+        let mut segs: Vec<usize> = (0..a.len() - 1).collect();
+        r.shuffle(&mut segs);
+        segs.truncate(r.range(8, 24).min(segs.len()));
+        segs.iter().map(|&j| a[j] + (a[j + 1] - a[j]) * *r.pick(&[0.5, 0.25, 0.75])).collect()
+    };
+    let kx = seg_keys(r, &ax);
+    let ky = seg_keys(r, &ay);
+    let mut pool: Vec<Op> = vec![];
+    for _ in 0..r.range(8, 16) {
+        let x = Fb(*r.pick(&kx));
+        let y = if two { Fb(*r.pick(&ky)) } else { Fb(0.0) };
+        let call = match r.weighted(&[4, 3, 3, 1]) {
+            0 if cfg.shape.len() == if two { 2 } else { 1 } => Call::Scalar { x, y },
+            0 | 1 => Call::Interp { x, y },
+            2 => {
+                let n = r.range(2, 5);
+                let (ty, shape) = match r.weighted(&[6, 2, 2]) {
+                    0 => (QTy::Q1, vec![n]),
+                    1 => (QTy::QDyn, vec![n]),
+                    _ => (QTy::Q2, vec![2, (n + 1) / 2]),
+                };
+                let n = shape.iter().product::<usize>();
+                Call::Array { q: QSpec { ty, shape, xs: (0..n).map(|_| Fb(*r.pick(&kx))).collect(), ys: if two { (0..n).map(|_| Fb(*r.pick(&ky))).collect() } else { vec![] }, ys_shape: None, lay: Lay::C, ys_lay: Lay::C } }
+            }
+            _ => Call::IndexLeftOf { x, y },
+        };
+        pool.push(Op { slot: 0, call, plan: vec![], yield_mask: 0, check_acc: false, elem_fault: 0 });
+    }
+    let n_threads = r.range(2, 4);
+    let threads = (0..n_threads).map(|_| ThreadSpec { ops: (0..r.range(10, 18)).map(|_| pool[r.below(pool.len())].clone()).collect(), crash_on_fault: false }).collect();
     Generated { spec: RunSpec { build_on_thread: vec![], slots: vec![cfg], threads, sched: Sched::RoundRobin { quantum: 1 }, stall: None, ballast: 0 }, faults }
 }
 
